@@ -42,7 +42,7 @@ ASSUMPTIONS = ['indexing, slicing and iteration in MSB0 mode only (the LSB0 inde
 
 PROMOTABLE = ['str', 'hexstr', 'bytes', 'bytearray', 'memoryview', 'list', 'tuple', 'gen', 'truthy', 'truthy-iter', 'bitarray', 'array', 'BytesIO', 'BytesIO-used', 'BytesIO-written'] + util.SUBCLASS_KINDS
 BYTE_KINDS = ('bytes', 'bytearray', 'memoryview', 'array', 'BytesIO', 'BytesIO-used', 'BytesIO-written', 'bytes-sub', 'bytearray-sub', 'memoryview-ro', 'memoryview-strided', 'memoryview-reversed')
-MUL_NS = [-2, -1, 0, 1, 2, 3, 4, 5, 7, 8, 9, 15, 16, 17, 31, 32, 33, 64, 65, 100, 1000]
+MUL_NS = [-2, -1, 0, 1, 2, 3, 4, 5, 7, 8, 9, 15, 16, 17, 31, 32, 33, 64, 65, 100, 255, 256, 257, 259, 300, 1000, 1001, 4099]
 HUGE = [10 ** 6, -10 ** 6, 2 ** 63, -2 ** 63 - 1, 10 ** 30, -10 ** 30]
 PRODUCT_LENGTHS = [x for x in util.LENGTHS if x <= 33]
 SUBCLASS_OF = {('Bits', 'BitArray'), ('Bits', 'ConstBitStream'), ('Bits', 'BitStream'),
@@ -640,10 +640,10 @@ def run(ctx):
     ctx.exhaustive['slice: position-pool x position-pool x step-pool product for every pool length <= 33, 4 classes, 2 routes'] = True
 
     # (c) seq: len / bool / iteration / every index
-    big = [] if ctx.quick else [20000, 70001]
+    big = [65536, 131072] if ctx.quick else [20000, 70001, 65536, 65536 * 2, 65536 * 3, 65535, 65537, 1 << 20]      # exact multiples of 64 Kibit and their neighbours
     i = 0
     for rep in range(2 if ctx.quick else 6):
-        for L in util.LENGTHS + big:
+        for L in util.LENGTHS + (big if rep == 0 or not ctx.quick else []):
             for cn in CLASS_NAMES:
                 for route in (None, 'slice'):
                     i += 1
